@@ -37,9 +37,11 @@ type Case struct {
 	Kind  string `json:"kind"`
 	Type  string `json:"type"` // date | roman | sem | size | uu
 	Steps []Step `json:"steps,omitempty"`
-	A     vkit.B `json:"a,omitempty"`
-	B     vkit.B `json:"b,omitempty"`
-	Rule  int    `json:"rule,omitempty"`
+	// NoLimit runs the history with the type's package MaxInputLength disabled (long inputs then reach the parsers).
+	NoLimit bool   `json:"no_limit,omitempty"`
+	A       vkit.B `json:"a,omitempty"`
+	B       vkit.B `json:"b,omitempty"`
+	Rule    int    `json:"rule,omitempty"`
 }
 
 type (
@@ -98,17 +100,51 @@ func scanValue(kind int, in []byte) any {
 		return nil
 	case 4:
 		return len(in)
-	default:
+	case 5:
 		return time.Time{}
+	default: // a year far outside the int32 year field of Date
+		y := 2147483648 + len(in)*1000003
+		if len(in)%2 == 1 {
+			y = -y
+		}
+		return time.Date(y, time.Month(1+len(in)%12), 1+len(in)%28, 0, 0, 0, 0, time.UTC)
 	}
 }
 
+func limitOf(typ string) *int {
+	switch typ {
+	case "date":
+		return &date.MaxInputLength
+	case "roman":
+		return &roman.MaxInputLength
+	case "sem":
+		return &sem.MaxInputLength
+	case "size":
+		return &size.MaxInputLength
+	}
+	return &uu.MaxInputLength
+}
+
 func judgeHistory(c Case, w *vkit.W) (failAfterSuccess bool) {
+	if c.NoLimit {
+		p := limitOf(c.Type)
+		old := *p
+		*p = 0
+		defer func() { *p = old }()
+	}
 	r := newReceiver(c.Type)
 	model := r.get()
 	hadSuccess := false
+	maxLen := 0
+	for _, st := range c.Steps {
+		if len(st.Input) > maxLen {
+			maxLen = len(st.Input)
+		}
+	}
+	shared := make([]byte, maxLen) // the caller reads every input into one reused buffer
 	for i, st := range c.Steps {
-		buf := []byte(st.Input)
+		buf := shared[:len(st.Input)]
+		copy(buf, st.Input)
 		snap := append([]byte{}, buf...)
 		var err error
 		var expect any // value a successful call must produce (nil = not asserted)
@@ -159,7 +195,7 @@ func judgeHistory(c Case, w *vkit.W) (failAfterSuccess bool) {
 			if st.ScanKind == 0 {
 				expect, expectSet = date.FromTime(scanValue(0, snap).(time.Time)), true
 			}
-			if st.ScanKind >= 5 {
+			if st.ScanKind == 5 {
 				expect, expectSet = date.Date{}, true
 			}
 		default:
@@ -408,12 +444,12 @@ func TestCheck(t *testing.T) {
 			r.Rapid(t, "rapid-history-"+typ, ti, r.Pick(20000, 400000), func(rt *rapid.T, w *vkit.W) vkit.RapidCase {
 				ops := opsFor(typ)
 				n := rapid.IntRange(1, 30).Draw(rt, "steps")
-				c := Case{Kind: "history", Type: typ}
+				c := Case{Kind: "history", Type: typ, NoLimit: rapid.IntRange(0, 3).Draw(rt, "noLimit") == 0}
 				for i := 0; i < n; i++ {
 					op := rapid.SampledFrom(ops).Draw(rt, "op")
 					st := Step{Op: op, Input: vkit.B(genInput(rt, typ, op))}
 					if op == "scan" {
-						st.ScanKind = rapid.IntRange(0, 5).Draw(rt, "scanKind")
+						st.ScanKind = rapid.IntRange(0, 6).Draw(rt, "scanKind")
 					}
 					c.Steps = append(c.Steps, st)
 				}
